@@ -11,7 +11,10 @@ package checks
 // Oracle, per request: (1) status < 500, (2) not a recovered panic (500 with an
 // empty body), (3) a non-empty body with a JSON content type parses as JSON
 // (export streams: every line), (4) after a 4xx the digest of the ledgers'
-// committed state is unchanged. No fault is injected, so a 5xx is attributed to
+// committed state is unchanged, (5) a create-transaction request whose single
+// mutation is a certainly-invalid posting value (negative amount, address or
+// asset outside the documented pattern: c38MustReject) is not answered 2xx.
+// No fault is injected, so a 5xx is attributed to
 // the client input. 500s whose logged error / panic comes from the harness
 // (memstore / microsql / pgshim) are counted as `harness_gap`, not violations
 // (c38IsHarnessGap).
@@ -193,7 +196,7 @@ func c38SysPlan(routes []*c38Route) []c38SysCase {
 	return out
 }
 
-func c38RandCases(r *core.Run) int { return r.N(150, 19_000) }
+func c38RandCases(r *core.Run) int { return r.N(110, 3_000) }
 
 func c38Rng(seed int64, loop string, idx int) *rand.Rand {
 	h := sha256.New()
@@ -211,6 +214,7 @@ func c38Rng(seed int64, loop string, idx int) *rand.Rand {
 // entry point
 
 func runC38(r *core.Run) {
+	c38Thorough = !r.Quick()
 	routes := c38Routes()
 	sys := c38SysPlan(routes)
 	nRand := c38RandCases(r)
@@ -223,7 +227,7 @@ func runC38(r *core.Run) {
 	r.Floor("distinct_nontrivial", 600)
 	r.Floor("routes", int64(len(routes)))
 	r.Floor("mutation_classes", 30)
-	r.Floor("requests", int64(r.N(15_000, 400_000)))
+	r.Floor("requests", int64(r.N(15_000, 300_000)))
 	r.Floor("valid_baseline_ok", int64(len(sys)*2/3))
 	r.Extra("routes_total", len(routes))
 	r.Extra("sys_cases", len(sys))
@@ -253,6 +257,7 @@ func runC38(r *core.Run) {
 	_ = os.RemoveAll(dir)
 	_ = os.MkdirAll(dir, 0o755)
 	r.Extra("inflight_dir", dir)
+	c38NestingProbe(r)
 
 	// batches
 	type batch struct {
@@ -265,7 +270,7 @@ func runC38(r *core.Run) {
 	}
 	per := 8
 	if !r.Quick() {
-		per = 60
+		per = 12
 	}
 	for i := 0; i < nRand; i += per {
 		j := i + per
@@ -315,6 +320,29 @@ func runC38(r *core.Run) {
 	}
 }
 
+// c38NestingProbe records (evidence only, no verdict) how long GET /v2/l1/logs
+// takes with a filter of N nested `$not`: found while building the check, a
+// 9000-level filter (80 kB, below encoding/json's depth limit) keeps a handler
+// busy for 5-8 s of CPU and is answered 200.
+func c38NestingProbe(r *core.Run) {
+	env := sim.NewEnv(sim.Options{})
+	defer func() { go env.Close() }()
+	x := &c38Exec{env: env, agg: c38NewAgg(), onlyReq: -1, reported: map[string]bool{}, st: &c38State{cursors: map[string]string{}}}
+	x.raw(c38New("POST", "/v2/l1").raw(`{}`))
+	x.raw(c38New("POST", "/v2/l1/transactions").raw(`{"postings":[{"source":"world","destination":"bank","asset":"USD","amount":1}]}`))
+	out := map[string]any{}
+	for _, n := range []int{500, 1000, 2000, 4000} {
+		f := strings.Repeat(`{"$not":`, n) + `{"$match":{"id":1}}` + strings.Repeat(`}`, n)
+		t0 := time.Now()
+		resp := x.raw(c38New("GET", "/v2/l1/logs").raw(f))
+		out[fmt.Sprintf("not_x%d", n)] = map[string]any{"bytes": len(f), "status": resp.Status, "seconds": time.Since(t0).Seconds(), "timed_out": resp.TimedOut}
+		if resp.TimedOut {
+			break
+		}
+	}
+	r.Extra("filter_nesting_probe_wall_clock_no_verdict", out)
+}
+
 // ---------------------------------------------------------------------------
 // parent side: children
 
@@ -346,6 +374,7 @@ func c38RunBatchInChildren(r *core.Run, bi int, loop string, from, to int, dir s
 		inflight := base + ".json"
 		_ = os.Remove(out)
 		_ = os.Remove(inflight)
+		_ = os.Remove(inflight + ".prev")
 		onlyReq := -1
 		stderr, exit, timedOut := c38Spawn(exe, r, scratch, loop, next, to, out, inflight, onlyReq, startSeq)
 		done := c38ReadOut(r, out)
@@ -354,10 +383,15 @@ func c38RunBatchInChildren(r *core.Run, bi int, loop string, from, to int, dir s
 		}
 		// crash (or kill): completed cases are merged; attribute to the request on disk
 		r.Count("child_crashes", 1)
-		var inf c38Inflight
+		var inf, prev c38Inflight
 		b, _ := os.ReadFile(inflight)
+		pb, _ := os.ReadFile(inflight + ".prev")
 		hist, _ := os.ReadFile(inflight + ".history")
+		_ = json.Unmarshal(pb, &prev)
 		if json.Unmarshal(b, &inf) != nil || inf.Route == "" {
+			inf, b, prev = prev, pb, c38Inflight{}
+		}
+		if inf.Route == "" {
 			r.Inconclusive(fmt.Sprintf("C38: child for %s[%d,%d) ended with status %d (timeout=%v) without an in-flight request on disk; stderr tail: %s", loop, next, to, exit, timedOut, c38Tail(stderr, 1500)))
 			next = c38NextAfter(done, next)
 			startSeq = 0
@@ -367,27 +401,47 @@ func c38RunBatchInChildren(r *core.Run, bi int, loop string, from, to int, dir s
 			}
 			continue
 		}
+		resumeAt := inf.Seq + 1
 		crashName := filepath.Join(dir, fmt.Sprintf("CRASH-%s-%d-%d.json", loop, inf.Case, inf.Seq))
 		_ = os.WriteFile(crashName, b, 0o644)
 		if timedOut {
 			r.Inconclusive(fmt.Sprintf("C38: child for %s[%d,%d) killed by the batch watchdog while serving %s %s (%s: %s); request kept in %s", loop, next, to, inf.Route, inf.Class, inf.Desc, c38Tail(string(b), 600), crashName))
 		} else {
 			msg, site := c38CrashSite(stderr)
-			// confirm in isolation (first crash of each signature): a fresh child replays the case's seeding and only this request
+			// Attribute and confirm in isolation (first crash of each signature): a fresh child replays the case's
+			// seeding and only one request. The process can die a little after the culprit's response (the panic is
+			// in a goroutine the handler started), i.e. while the NEXT request is on disk: try the previous one too.
 			var reproduced any = "not attempted (signature already confirmed)"
 			sigKey := inf.Route + "|" + c38Channel(inf.Class) + "|" + site
 			c38MergeMu.Lock()
 			first := !c38CrashConfirmed[sigKey]
-			c38CrashConfirmed[sigKey] = true
 			c38MergeMu.Unlock()
 			if first {
-				stderr2, exit2, _ := c38Spawn(exe, r, scratch, loop, inf.Case, inf.Case+1, base+".out2", base+".json2", inf.Seq, 0)
-				_, site2 := c38CrashSite(stderr2)
-				reproduced = exit2 != 0 && site2 == site
+				reproduced = false
+				for ci, cand := range []c38Inflight{inf, prev} {
+					if cand.Route == "" || cand.Case != inf.Case {
+						continue
+					}
+					stderr2, exit2, _ := c38Spawn(exe, r, scratch, loop, cand.Case, cand.Case+1, base+".out2", base+".json2", cand.Seq, 0)
+					_, site2 := c38CrashSite(stderr2)
+					if exit2 != 0 && site2 == site {
+						reproduced = true
+						if ci == 1 {
+							inf = cand // the previous request is the culprit; the on-disk one is simply re-run
+							resumeAt = cand.Seq + 1
+						}
+						break
+					}
+				}
+				for _, suffix := range []string{".out2", ".json2", ".json2.history", ".json2.prev"} {
+					_ = os.Remove(base + suffix)
+				}
+				if reproduced == true {
+					c38MergeMu.Lock()
+					c38CrashConfirmed[inf.Route+"|"+c38Channel(inf.Class)+"|"+site] = true
+					c38MergeMu.Unlock()
+				}
 			}
-			_ = os.Remove(base + ".out2")
-			_ = os.Remove(base + ".json2")
-			_ = os.Remove(base + ".json2.history")
 			var histAny any
 			_ = json.Unmarshal(hist, &histAny)
 			if c38IsHarnessGap(msg + " " + site) {
@@ -396,7 +450,7 @@ func c38RunBatchInChildren(r *core.Run, bi int, loop string, from, to int, dir s
 			} else {
 				sig := fmt.Sprintf("C38/%s:%s:crash:%s", inf.Route, c38Channel(inf.Class), site)
 				(&core.Case{R: r, Loop: loop, Index: inf.Case}).Violation(sig, map[string]any{
-					"what":                    "the server PROCESS died (panic outside the request goroutine / fatal error) while serving this request",
+					"what":                    "the server PROCESS died (panic outside the request goroutine / fatal error) while or shortly after serving this request",
 					"route":                   inf.Route,
 					"mutation_class":          inf.Class,
 					"mutation":                inf.Desc,
@@ -416,7 +470,7 @@ func c38RunBatchInChildren(r *core.Run, bi int, loop string, from, to int, dir s
 		// continue the same case after the crashed request (the case is re-seeded)
 		if inf.Case >= next {
 			next = inf.Case
-			startSeq = inf.Seq + 1
+			startSeq = resumeAt
 		} else {
 			next++
 			startSeq = 0
@@ -427,9 +481,9 @@ func c38RunBatchInChildren(r *core.Run, bi int, loop string, from, to int, dir s
 			break
 		}
 	}
-	_ = os.Remove(base + ".out")
-	_ = os.Remove(base + ".json")
-	_ = os.Remove(base + ".json.history")
+	for _, suffix := range []string{".out", ".json", ".json.history", ".json.prev", ".json.tmp"} {
+		_ = os.Remove(base + suffix)
+	}
 }
 
 func c38NextAfter(done []int, next int) int {
@@ -605,39 +659,42 @@ func c38ChildMain(r *core.Run, spec string, routes []*c38Route, sys []c38SysCase
 // executing one case
 
 type c38Exec struct {
-	seed     int64
-	loop     string
-	idx      int
-	env      *sim.Env
-	st       *c38State
-	agg      *c38Agg
-	inflight string
-	seq      int
-	uniq     int
-	onlyReq  int
-	newLedg  string
-	bare     http.Handler
-	reported map[string]bool
-	aborted  bool
-	wedged   bool
-	startSeq int
-	lastDig  string // digest after the previous request ("" = unknown)
-	digCache string
-	digCommits int64
-	digLedger string
-	digOK    bool
-	writes   int // requests since the last (re)seeding that moved the commit counter
-	reseeds  int
-	out      io.Writer
-	sinceFl  int
+	seed                int64
+	loop                string
+	idx                 int
+	env                 *sim.Env
+	st                  *c38State
+	agg                 *c38Agg
+	inflight            string
+	seq                 int
+	uniq                int
+	onlyReq             int
+	newLedg             string
+	bare                http.Handler
+	reported            map[string]bool
+	aborted             bool
+	wedged              bool
+	importTargetChanged bool
+	validBad            string // status:error-class of the current valid request when it is itself answered 5xx
+	startSeq            int
+	lastDig             string // digest after the previous request ("" = unknown)
+	digCache            string
+	digCommits          int64
+	digLedger           string
+	digOK               bool
+	writes              int // requests since the last (re)seeding that moved the commit counter
+	reseeds             int
+	out                 io.Writer
+	sinceFl             int
 }
 
 type c38Resp struct {
-	Status  int
-	Header  http.Header
-	Body    []byte
-	Logged  []string
-	TimedOut bool
+	Status      int
+	Header      http.Header
+	Body        []byte
+	Logged      []string
+	TimedOut    bool
+	Wedged      bool
 	Unbuildable string
 }
 
@@ -659,19 +716,19 @@ func (s *c38LogSink) add(m string) {
 
 type c38Logger struct{ sink *c38LogSink }
 
-func (l c38Logger) Tracef(string, ...any)                       {}
-func (l c38Logger) Debugf(string, ...any)                       {}
-func (l c38Logger) Infof(string, ...any)                        {}
-func (l c38Logger) Errorf(f string, a ...any)                   { l.sink.add(fmt.Sprintf(f, a...)) }
-func (l c38Logger) Trace(...any)                                {}
-func (l c38Logger) Debug(...any)                                {}
-func (l c38Logger) Info(...any)                                 {}
-func (l c38Logger) Error(a ...any)                              { l.sink.add(fmt.Sprint(a...)) }
-func (l c38Logger) WithFields(map[string]any) logging.Logger    { return l }
-func (l c38Logger) WithField(string, any) logging.Logger        { return l }
-func (l c38Logger) WithContext(context.Context) logging.Logger  { return l }
-func (l c38Logger) Writer() io.Writer                           { return io.Discard }
-func (l c38Logger) Enabled(level logging.Level) bool            { return level >= logging.ErrorLevel }
+func (l c38Logger) Tracef(string, ...any)                      {}
+func (l c38Logger) Debugf(string, ...any)                      {}
+func (l c38Logger) Infof(string, ...any)                       {}
+func (l c38Logger) Errorf(f string, a ...any)                  { l.sink.add(fmt.Sprintf(f, a...)) }
+func (l c38Logger) Trace(...any)                               {}
+func (l c38Logger) Debug(...any)                               {}
+func (l c38Logger) Info(...any)                                {}
+func (l c38Logger) Error(a ...any)                             { l.sink.add(fmt.Sprint(a...)) }
+func (l c38Logger) WithFields(map[string]any) logging.Logger   { return l }
+func (l c38Logger) WithField(string, any) logging.Logger       { return l }
+func (l c38Logger) WithContext(context.Context) logging.Logger { return l }
+func (l c38Logger) Writer() io.Writer                          { return io.Discard }
+func (l c38Logger) Enabled(level logging.Level) bool           { return level >= logging.ErrorLevel }
 
 var _ logging.Logger = c38Logger{}
 
@@ -822,11 +879,26 @@ func (x *c38Exec) raw(q c38Req) *c38Resp {
 	}()
 	timer := time.NewTimer(c38WatchdogSeconds * time.Second)
 	defer timer.Stop()
-	select {
-	case <-done:
-		return &resp
-	case <-timer.C:
-		return &c38Resp{TimedOut: true}
+	probe := time.NewTimer(3 * time.Second)
+	defer probe.Stop()
+	for {
+		select {
+		case <-done:
+			return &resp
+		case <-timer.C:
+			return &c38Resp{TimedOut: true}
+		case <-probe.C:
+			// slow request: is the handler waiting for a wedged store (see guard)?
+			ok := make(chan struct{})
+			go func() { x.env.C.Stats(); close(ok) }()
+			select {
+			case <-ok:
+			case <-done:
+				return &resp
+			case <-time.After(2 * time.Second):
+				return &c38Resp{TimedOut: true, Wedged: true}
+			}
+		}
 	}
 }
 
@@ -853,6 +925,13 @@ func (x *c38Exec) bareRouter() http.Handler {
 // panicInfo replays a request that the recover middleware answered with an empty
 // 500 against the same v1/v2 routers mounted WITHOUT that middleware.
 func (x *c38Exec) panicInfo(q c38Req) (value, site, stack string) {
+	if strings.HasSuffix(q.path(), "/logs/import") {
+		// the first attempt may have imported some logs: replay into a fresh, empty ledger
+		x.uniq++
+		name := fmt.Sprintf("rp%d", x.uniq)
+		x.raw(c38New("POST", "/v2", name).raw(`{"bucket":"impb"}`))
+		q = q.setParam("ledger", name)
+	}
 	done := make(chan struct{})
 	go func() {
 		defer close(done)
@@ -881,11 +960,11 @@ func (x *c38Exec) panicInfo(q c38Req) (value, site, stack string) {
 	select {
 	case <-done:
 	case <-time.After(c38WatchdogSeconds * time.Second):
-		return "", "replay-timeout", ""
+		return "", "site-unknown(replay did not reproduce)", ""
 	}
 	x.abortAll()
 	if site == "" {
-		site = "not-reproduced-on-replay(or empty 500 written by the handler)"
+		site = "site-unknown(replay did not reproduce)"
 	}
 	if len(value) > 300 {
 		value = value[:300]
@@ -912,7 +991,7 @@ func c38PanicSite(stack []byte) string {
 }
 
 var (
-		c38ReDigits = regexp.MustCompile(`[0-9]+`)
+	c38ReDigits = regexp.MustCompile(`[0-9]+`)
 	c38ReSpace  = regexp.MustCompile(`\s+`)
 )
 
@@ -938,13 +1017,17 @@ func c38Normalize(s string, n int) string {
 	return s
 }
 
-// c38ErrClass: the outermost wrapping segment of a logged error (input-independent, at most 60 chars);
+// c38ErrClass: the outermost wrapping segment of a logged error, up to the first quoted value (input-independent, at most 60 chars);
 // the full text is in the violation's detail.
 func c38ErrClass(msg string) string {
 	if i := strings.Index(msg, " | "); i >= 0 {
 		msg = msg[:i]
 	}
 	if i := strings.Index(msg, ": "); i >= 0 {
+		msg = msg[:i]
+	}
+	// values echoed by the error are quoted (and may be cut by the log capture): keep what precedes them
+	if i := strings.IndexAny(msg, "\"'`"); i > 0 {
 		msg = msg[:i]
 	}
 	return c38Normalize(msg, 60)
@@ -1098,7 +1181,10 @@ func (x *c38Exec) writeInflight(rt *c38Route, m c38Mut, q c38Req) {
 		return
 	}
 	b, _ := json.Marshal(c38Inflight{Loop: x.loop, Case: x.idx, Seq: x.seq, Route: rt.Name, Class: m.Class, Desc: m.Desc, Request: c38ReqJSON(q)})
-	_ = os.WriteFile(x.inflight, b, 0o644)
+	// the previous request stays on disk too: a goroutine it started can kill the process a little later
+	_ = os.Rename(x.inflight, x.inflight+".prev")
+	_ = os.WriteFile(x.inflight+".tmp", b, 0o644)
+	_ = os.Rename(x.inflight+".tmp", x.inflight)
 }
 
 func (x *c38Exec) writeHistory() {
@@ -1139,6 +1225,10 @@ type c38Verdict struct {
 
 // judge applies the oracle to a response. before/after are state digests.
 func (x *c38Exec) judge(rt *c38Route, class string, q c38Req, resp *c38Resp, before, after string) c38Verdict {
+	return x.judge2(rt, class, "", q, resp, before, after)
+}
+
+func (x *c38Exec) judge2(rt *c38Route, class, mdesc string, q c38Req, resp *c38Resp, before, after string) c38Verdict {
 	prefix := fmt.Sprintf("C38/%s:%s:", rt.Name, c38Channel(class))
 	switch {
 	case resp.Status >= 500 && len(resp.Body) == 0:
@@ -1174,18 +1264,33 @@ func (x *c38Exec) judge(rt *c38Route, class string, q c38Req, resp *c38Resp, bef
 			}
 		}
 	}
+	if i := strings.Index(mdesc, c38MustRejectMark); i >= 0 && resp.Status < 400 && strings.HasSuffix(rt.Name, "/transactions") && rt.Method() == "POST" {
+		return c38Verdict{Kind: "invalid-accepted", Sig: fmt.Sprintf("%s%d:accepted-%s", prefix, resp.Status, strings.ReplaceAll(strings.Trim(mdesc[i+len(c38MustRejectMark):], "]"), " ", "-"))}
+	}
 	if resp.Status >= 400 && before != after {
 		code := c38ErrCode(resp.Body)
 		what := "state-changed"
-		if strings.HasSuffix(rt.Name, "/_bulk") {
+		switch {
+		case strings.HasSuffix(rt.Name, "/_bulk"):
 			if v, _ := q.getQuery("atomic"); !c38QueryTrue(v) {
 				what = "state-changed-non-atomic-bulk-partial-commit"
 			} else {
 				what = "state-changed-ATOMIC-bulk"
 			}
-		}
-		if strings.HasSuffix(rt.Name, "/logs/import") {
+		case strings.HasSuffix(rt.Name, "/logs/import"):
+			// only the request's own target ledger counts (an earlier import's goroutine may still be committing elsewhere)
 			what = "state-changed-import-partial-commit"
+			if !x.importTargetChanged {
+				return c38Verdict{}
+			}
+		default:
+			// background activity of an earlier bulk/import request can move the digest: confirm by repeating the request
+			b2 := x.digest()
+			r2 := x.raw(q)
+			if r2.TimedOut || r2.Unbuildable != "" || r2.Status < 400 || x.digest() == b2 {
+				x.agg.count("state_change_not_reproduced", 1)
+				return c38Verdict{}
+			}
 		}
 		return c38Verdict{Kind: "state-changed", Sig: fmt.Sprintf("C38/%s:any:%d:%s:%s", rt.Name, resp.Status, what, c38Normalize(code, 30))}
 	}
@@ -1236,6 +1341,15 @@ func (x *c38Exec) exec(rt *c38Route, m c38Mut, validKey string) (status int) {
 		x.flush() // handlers with goroutines of their own can kill the process: hand over what we have
 	}
 	x.writeInflight(rt, m, q)
+	importTarget, importBefore := "", ""
+	if rt.Body == "import" {
+		for _, sg := range q.Segs {
+			if sg.Param == "ledger" {
+				importTarget = sg.Val
+			}
+		}
+		x.guard("Snapshot", func() { importBefore = x.env.C.Snapshot(importTarget).Digest() })
+	}
 	t0 := time.Now()
 	resp := x.raw(q)
 	if d := time.Since(t0); d > 200*time.Millisecond && os.Getenv("C38_DUMP") != "" {
@@ -1244,6 +1358,13 @@ func (x *c38Exec) exec(rt *c38Route, m c38Mut, validKey string) (status int) {
 	if resp.Unbuildable != "" {
 		a.count("unbuildable_requests", 1)
 		a.seen("unbuildable", c38Normalize(resp.Unbuildable, 60))
+		return 0
+	}
+	if resp.Wedged {
+		x.guard("probe during a request that did not return", func() { x.env.C.Stats() })
+		x.wedged = true
+		x.hist(q, 0)
+		x.maybeReseed()
 		return 0
 	}
 	if resp.TimedOut && !x.guard("probe after a request that did not return", func() { x.env.C.Stats() }) {
@@ -1267,6 +1388,10 @@ func (x *c38Exec) exec(rt *c38Route, m c38Mut, validKey string) (status int) {
 		x.abortAll() // a panicked handler leaves its store transaction open
 	}
 	after := x.digest()
+	if importTarget != "" {
+		x.importTargetChanged = false
+		x.guard("Snapshot", func() { x.importTargetChanged = x.env.C.Snapshot(importTarget).Digest() != importBefore })
+	}
 	if x.wedged {
 		x.hist(q, resp.Status)
 		x.maybeReseed()
@@ -1318,7 +1443,7 @@ func (x *c38Exec) exec(rt *c38Route, m c38Mut, validKey string) (status int) {
 		a.Samples = append(a.Samples, map[string]any{"route": rt.Name, "class": m.Class, "mutation": m.Desc, "request": c38ReqJSON(q), "status": resp.Status, "response": c38Trunc(string(resp.Body), 300)})
 	}
 
-	v := x.judge(rt, m.Class, q, resp, before, after)
+	v := x.judge2(rt, m.Class, m.Desc, q, resp, before, after)
 	switch v.Kind {
 	case "":
 		return resp.Status
@@ -1331,6 +1456,16 @@ func (x *c38Exec) exec(rt *c38Route, m c38Mut, validKey string) (status int) {
 			a.seen("harness_gap_examples", c38Trunc(string(b), 700))
 		}
 		return resp.Status
+	}
+	if i := strings.Index(v.Sig, ":"+c38Channel(m.Class)+":"); i >= 0 && (v.Kind == "5xx" || v.Kind == "panic") {
+		tail := v.Sig[i+len(c38Channel(m.Class))+2:]
+		if m.Class == "valid" {
+			x.validBad = tail
+		} else if tail == x.validBad {
+			// the unmutated request of this variant already fails this way: not attributable to the mutation
+			a.count("inherited_from_failing_valid_request", 1)
+			return resp.Status
+		}
 	}
 	a.count("violating_requests", 1)
 	a.count("violating_"+v.Kind, 1)
@@ -1484,6 +1619,8 @@ func (x *c38Exec) minimize(rt *c38Route, class string, q c38Req, sig string) (c3
 // ---------------------------------------------------------------------------
 // a case
 
+var c38Thorough bool
+
 func c38RunCase(seed int64, loop string, idx int, routes []*c38Route, sys []c38SysCase, inflight string, onlyReq, startSeq int, out io.Writer) *c38Agg {
 	agg := c38NewAgg()
 	rng := c38Rng(seed, loop, idx)
@@ -1503,6 +1640,7 @@ func c38RunCase(seed int64, loop string, idx int, routes []*c38Route, sys []c38S
 	run := func(rt *c38Route, variant int, muts func(valid c38Req) []c38Mut) {
 		valid := rt.Gen(x.st, variant)
 		key := c38ReqKey(valid)
+		x.validBad = ""
 		x.exec(rt, c38Mut{Class: "valid", Desc: fmt.Sprintf("valid request, variant %d", variant), Req: valid}, key)
 		for _, m := range muts(valid) {
 			if x.aborted {
@@ -1532,11 +1670,15 @@ func c38RunCase(seed int64, loop string, idx int, routes []*c38Route, sys []c38S
 			return mine
 		})
 	default:
+		perRoute := c38RandPerCase / 3
+		if c38Thorough {
+			perRoute = 40
+		}
 		for k := 0; k < 3 && !x.aborted; k++ {
 			rt := routes[rng.Intn(len(routes))]
 			run(rt, rng.Intn(rt.Variants), func(valid c38Req) []c38Mut {
 				var out []c38Mut
-				for i := 0; i < c38RandPerCase/3; i++ {
+				for i := 0; i < perRoute; i++ {
 					out = append(out, c38RandMutant(rng, rt, valid, x.st))
 				}
 				return out
